@@ -59,7 +59,7 @@ theorem struct_mgrStart {P : Program} {depth : Node → Nat} (hp : LiveP P depth
             rw [ht0]; simp [spawn, htasks]
           rw [block_eq c _ _ _ _ hself]
           rw [hcP] at hdm
-          obtain ⟨d', hd', hdst, hout, hclosed, _⟩ := hp.dagsOK s P.g.output (Or.inl rfl)
+          obtain ⟨d', hd', hdst, hout, hclosed, _⟩ := hp.dagsOK s P.g.output false (Or.inl rfl)
           have hdd : d' = dm := by rw [hd'] at hdm; cases hdm; rfl
           subst hdd
           obtain ⟨hf1, hf2⟩ := reducedRef_flags hd'
